@@ -279,3 +279,18 @@ Definition reason_str (r : reason) : string :=
 
 Definition report (l : list site) : list (string * bool * list string) :=
   map (fun s => (site_id s, site_ok s, map reason_str (site_check s))) l.
+
+(* ------------------------------------------- example data for Props/Calls.v -- *)
+(* def f(a, b, c=0, *, d=1) *)
+Definition ex_sig : signature :=
+  mkSig [mkParam "a" false false; mkParam "b" false false; mkParam "c" true false;
+         mkParam "d" true true] false false.
+Definition ex_sig_kw : signature :=   (* def g(a, *args, **kwargs) *)
+  mkSig [mkParam "a" false false] true true.
+
+Definition ex_callee : signature :=
+  mkSig [mkParam "G" false false; mkParam "tau" false false; mkParam "gamma" false false;
+         mkParam "rho" true false] false false.
+Definition ex_site (c : call) : site :=
+  mkSite "W->F@0" "W" "simulation" 1%N ["G"; "tau"; "gamma"; "rho"] "F" "direct" ex_callee c.
+
